@@ -59,10 +59,16 @@ fn sign_case(ctx: &mut Ctx, ks: &BigUint, id: &[u8], msg: &[u8], r: Option<&BigU
     };
     if let Some(r) = r {
         if &used != r || seen.pending != 0 {
-            ctx.violation(&format!("sign:{}:injected-valid-r-not-used", cls), wit(ks, id, msg, Some(r)));
-            return;
+            // a stricter generator (e.g. one refusing a zero lowest limb) may reject the injected value; the
+            // operation then ran on a fresh draw, compared below like a free one
+            ctx.class("injected_r_rejected_by_generator");
+            if seen.candidates.first() != Some(r) {
+                ctx.violation(&format!("sign:{}:injected-candidate-never-reached-the-generator", cls), wit(ks, id, msg, Some(r)));
+                return;
+            }
+        } else {
+            ctx.class("fixed_r_exact");
         }
-        ctx.class("fixed_r_exact");
     } else {
         ctx.class("free_r");
     }
@@ -274,7 +280,7 @@ pub fn run(ctx: &mut Ctx) {
         if mlen == 0 {
             ctx.class("msg_empty");
         }
-        let r = if i % 6 == 0 { &pr.n - 2u32 - BigUint::from(i % 4) } else if i % 10 == 4 { BigUint::from(1 + i % 3) } else { rand_scalar(&mut p, &(&pr.n - 1u32)) };
+        let r = if i % 6 == 0 { &pr.n - 2u32 - BigUint::from(i % 4) } else if i % 10 == 4 { BigUint::from(1 + i % 3) } else if i % 10 == 7 { sparse_scalar(&mut p, 1 + (i / 10) % 14) } else { rand_scalar(&mut p, &(&pr.n - 1u32)) };
         // crafted master key ks = H1(ID||01): the verifier's [h1]P2 + Ppub-s is then a doubling
         let ks = if i % 8 == 3 {
             ctx.class("ks=H1(id)_doubling_in_verify");
